@@ -218,11 +218,14 @@ pub struct C18Case {
     pub jitter: f64,
     pub sync: SyncS,
     pub horizon: usize,
+    /// the merge triggered at tick k fails (its first output file name is taken); the task must keep
+    /// ticking and the merge must succeed at the next tick
+    pub fail_first_merge: bool,
 }
 
 impl C18Case {
     fn to_json(&self) -> Value {
-        json!({"engine": "vtime", "kind": "c18", "policy": format!("{:?}", self.policy), "trigger": format!("{:?}", self.trig), "k": self.k, "interval_ms": self.interval_ms, "jitter": self.jitter, "sync": match self.sync { SyncS::None => json!("none"), SyncS::Always => json!("always"), SyncS::Interval(d) => json!(d) }, "horizon": self.horizon})
+        json!({"engine": "vtime", "kind": "c18", "policy": format!("{:?}", self.policy), "trigger": format!("{:?}", self.trig), "k": self.k, "interval_ms": self.interval_ms, "jitter": self.jitter, "sync": match self.sync { SyncS::None => json!("none"), SyncS::Always => json!("always"), SyncS::Interval(d) => json!(d) }, "horizon": self.horizon, "fail_first_merge": self.fail_first_merge})
     }
     fn from_json(v: &Value) -> Option<C18Case> {
         Some(C18Case {
@@ -233,6 +236,7 @@ impl C18Case {
             jitter: v["jitter"].as_f64()?,
             sync: match &v["sync"] { Value::String(s) if s == "always" => SyncS::Always, Value::Number(n) => SyncS::Interval(n.as_u64()?), _ => SyncS::None },
             horizon: v["horizon"].as_u64()? as usize,
+            fail_first_merge: v["fail_first_merge"].as_bool().unwrap_or(false),
         })
     }
 }
@@ -335,6 +339,24 @@ pub fn c18_case(dir: &Path, c: &C18Case) -> Result<String, V> {
                     expected_at.push(tick);
                 }
                 let hints_before = iohook::grec_snapshot().iter().filter(|x| matches!(x, Call::Create { path, .. } if path.ends_with(".hint"))).count();
+                if c.fail_first_merge && tick == c.k && refp && allowed {
+                    // take the name of the merge's first output file: the merge fails with EEXIST
+                    let blocker = dir.join(format!("{}.bitcask.data", dump.active_fileid + 1));
+                    std::fs::write(&blocker, b"").map_err(|e| mach(e.to_string()))?;
+                    let go_before = events().iter().filter(|e| e.0 == "bg:merge:go").count();
+                    release_one();
+                    let t0 = Instant::now();
+                    while events().iter().filter(|e| e.0 == "bg:merge:go").count() == go_before || iohook::vtime_busy_now() > 0 {
+                        if t0.elapsed() > Duration::from_secs(6) {
+                            return Err(("merge-does-not-run-when-triggered".into(), format!("tick {}: no merge attempt within 6 s", tick)));
+                        }
+                        std::thread::sleep(Duration::from_micros(200));
+                    }
+                    std::thread::sleep(Duration::from_millis(1));
+                    let _ = std::fs::remove_file(&blocker);
+                    merges_seen_at.push(tick);
+                    continue;
+                }
                 release_one();
                 if refp && allowed {
                     // the merge must start now: wait for its hint file
@@ -457,16 +479,26 @@ fn c18_cases(tier: Tier) -> Vec<C18Case> {
                             if policy == Policy::Never && jitter != 0.3 {
                                 continue;
                             }
-                            v.push(C18Case { policy, trig, k, interval_ms, jitter, sync, horizon });
+                            v.push(C18Case { policy, trig, k, interval_ms, jitter, sync, horizon, fail_first_merge: false });
                         }
                     }
                 }
             }
         }
     }
+    // a merge that fails must not end the periodic task: the next tick merges
+    for k in [1usize, 2] {
+        for interval_ms in [1000u64, 180_000] {
+            for trig in [Trig::DeadBytes, Trig::Frag] {
+                for sync in [SyncS::None, SyncS::Interval(interval_ms / 3)] {
+                    v.push(C18Case { policy: Policy::Always, trig, k, interval_ms, jitter: 0.3, sync, horizon, fail_first_merge: true });
+                }
+            }
+        }
+    }
     // sync strategies on their own (merge never): interval 1 ms, 500 ms, 10 min
     for d in [1u64, 500, 600_000] {
-        v.push(C18Case { policy: Policy::Never, trig: Trig::None, k: 1, interval_ms: d * 4, jitter: 0.0, sync: SyncS::Interval(d), horizon: tier.pick(5, 10) });
+        v.push(C18Case { policy: Policy::Never, trig: Trig::None, k: 1, interval_ms: d * 4, jitter: 0.0, sync: SyncS::Interval(d), horizon: tier.pick(5, 10), fail_first_merge: false });
     }
     v
 }
@@ -645,7 +677,7 @@ pub fn c17_case(dir: &Path, c: &C17Case) -> Result<String, V> {
         let _ = dropper.join();
         if drop_waited {
             log_len_at_drop = iohook::grec_snapshot().len();
-            for (what, r) in [("set", h.set(b("x"), b("y")).map(|_| ()).map_err(|e| e.to_string())), ("merge", h.verif_merge().map_err(|e| e.to_string()))] {
+            for (what, r) in [("set", h.set(b("x"), b("y")).map(|_| ()).map_err(|e| e.to_string())), ("get", h.get(b("k")).map(|_| ()).map_err(|e| e.to_string())), ("del", h.del(b("k")).map(|_| ()).map_err(|e| e.to_string())), ("merge", h.verif_merge().map_err(|e| e.to_string())), ("sync", h.verif_sync().map_err(|e| e.to_string()))] {
                 match r {
                     Err(e) if e.contains("closed") => {}
                     other => return Err(("operation-on-a-closed-store-not-rejected".into(), format!("{} through a retained handle after the drop returned: {:?}", what, other))),
